@@ -12,6 +12,7 @@ for d in ${SEEDS:-seeded/*/}; do
     C08_d) props="C08,C10";; C01_b) props="C01,C02";; C02_c) props="C02,C01";;
     C19_e) props="C19,C07";; C19_f) props="C19,C03";; C14_f) props="C14,C03";;
     C12_e) props="C12,C11";; C02_f) props="C02,C13";; C14_e) props="C14,C02";;
+    C16_e) props="C16,C02";; C16_f) props="C16,C14";; C09_f) props="C09,C10";;
   esac
   /venv/bin/python - "$d/meta.json" <<'PY'
 import json,sys
